@@ -205,9 +205,12 @@ def step (s : St) : Ev → Option St
   | .sunl a w =>
     let x := s.wk w
     if x.lk = some (a, .susp) then some { s with wk := upd s.wk w { x with lk := none } } else none
-  | .sdone a w v =>
+  | .sdone a w _ =>
+    -- the payload is the argument of a POST-only note (evaluated before the log lock is taken), so
+    -- it is informational only; what the model checks is that the worker has stored `sleeping`
+    -- since this suspender's CAS
     let x := s.wk w
-    if v = x.st ∧ a ∉ x.waiters then some s else none
+    if a ∉ x.waiters then some s else none
   | .ucas a w before after =>
     let x := s.wk w
     if before = x.st ∧ after = casResult before ∧ mayAct s a = true then
